@@ -3,6 +3,7 @@ CONSTANTS
   CombSet = {"WhenAny"}
   N = 4
   Fixed = FALSE
+  Follow = FALSE
 INVARIANT NoViolation
 INVARIANT Structural
 CHECK_DEADLOCK FALSE
